@@ -1,3 +1,7 @@
+// replay for property C15, harness c15_splitter_n6 (/verif/harness/sciparse/c15_text.rs)
+// failed checks reported by CBMC:
+//   "accepted without opening bracket" @ ../harness/sciparse/c15_text.rs:41:9 in function scion::address::socket_addr::verif_c15::splitter::<6>
+//   "accepted without closing bracket before the port" @ ../harness/sciparse/c15_text.rs:43:9 in function scion::address::socket_addr::verif_c15::splitter::<6>
 //! verif-attach: file=crates/libs/sciparse/src/scion/address/socket_addr.rs crate=sciparse mod=verif_c15
 //!
 //! C15 — address and identifier text forms: the bracket-and-port splitter is total and exact on
@@ -217,3 +221,42 @@ fn c15_asn_total_n5() {
 fn c15_asn_total_n7() {
     asn_total::<7>()
 }
+
+#[cfg(test)]
+mod verif_playback {
+    use super::*;
+/// Test generated for harness `scion::address::socket_addr::verif_c15::c15_splitter_n6` 
+///
+/// Check for `assertion`: "This is a placeholder message; Kani doesn't support message formatted at runtime"
+
+#[test]
+fn kani_concrete_playback_c15_splitter_n6_10352823057227451859() {
+    let concrete_vals: Vec<Vec<u8>> = vec![
+        // 6ul
+        vec![6, 0, 0, 0, 0, 0, 0, 0],
+    ];
+    let mut concrete_vals = concrete_vals;
+    concrete_vals.extend(std::iter::repeat(vec![0u8]).take(8192));
+    kani::concrete_playback_run(concrete_vals, c15_splitter_n6);
+}
+
+/// Test generated for harness `scion::address::socket_addr::verif_c15::c15_splitter_n6` 
+///
+/// Check for `cover`: "accept reachable"
+
+#[test]
+fn kani_concrete_playback_c15_splitter_n6_6276664363346183601() {
+    let concrete_vals: Vec<Vec<u8>> = vec![
+        // 5ul
+        vec![5, 0, 0, 0, 0, 0, 0, 0],
+    ];
+    let mut concrete_vals = concrete_vals;
+    concrete_vals.extend(std::iter::repeat(vec![0u8]).take(8192));
+    kani::concrete_playback_run(concrete_vals, c15_splitter_n6);
+}
+}
+
+// native replay (sliced trace; cargo kani playback, dev profile, real code):
+//   kani_concrete_playback_c15_splitter_n6_10352823057227451859: reproduced (This is a placeholder message; Kani doesn't support message formatted at runtime)
+//   kani_concrete_playback_c15_splitter_n6_6276664363346183601: did not reproduce (cover:accept reachable)
+// re-run: bin/check C15 --replay /verif/replays/C15/c15_splitter_n6.rs
